@@ -1,5 +1,6 @@
 import MtailVerif.Proofs.Conn
 import MtailVerif.Generated.Conn
+import MtailVerif.Proofs.Skeletons
 /-! # C17 — Pipes and sockets deliver all bytes, never splice connections, then end -/
 namespace MtailVerif.C17
 open MtailVerif MtailVerif.Conn MtailVerif.Reader
@@ -50,5 +51,12 @@ example : (run ⟨false, false⟩ {} [.cancel]).linesClosed = false := by decide
 /-- non-vacuity: two interleaved connections -/
 example : (run ⟨false, true⟩ {} [.accept 1, .accept 2, .data 1 [97], .data 2 [98, 10], .data 1 [10, 99],
     .close 1, .cancel]).out = [(2, [98]), (1, [97]), (1, [99])] := by decide
+
+/-! ### regenerated control skeletons (written by lib/wire_skeletons.py) -/
+/-- Obligations over regenerated facts: the functions this property's model stands for have the
+    control skeleton the model was written against (`Proofs/Skeletons.lean`, one `rfl` per function
+    or clause; DESIGN.md §11.6a) -/
+theorem streams_skeletons : Skeletons.StreamsShape := Skeletons.streams_shape
+theorem dispatch_skeletons : Skeletons.DispatchShape := Skeletons.dispatch_shape
 
 end MtailVerif.C17
